@@ -602,6 +602,8 @@ def run_wire_check(prop, tier, seed):
     except common.CheckFailure as e:
         rep.violation_noinput("correspondence run failed", {"error": str(e)})
         return rep.finish()
+    # extraction + glue against the kernel: sampled client cases proved by vm_compute
+    common.kernel_crosscheck(rep, "wire", mlines, 200 if thorough else 80)
     # property clauses on the implementation's observations
     failures = []
     nontrivial = set()
